@@ -126,6 +126,8 @@ func New(o Options) (*Server, error) {
 	if o.RoutingTTL > 0 {
 		s.Routing = session.NewTunnelRoutingTable(s.Storage, o.RoutingTTL)
 		s.SM.SetTunnelRoutingTable(s.Routing)
+		// dedicated cross-node connections, as components_session.go installs them
+		s.SM.SetTunnelConnectionManager(session.NewTunnelConnectionManager(s.Routing.GetNodeAddress, session.DefaultTunnelConnectionManagerConfig()))
 	}
 	if o.ConnStateTTL > 0 {
 		s.State = session.NewConnectionStateStore(s.Storage, s.NodeID, o.ConnStateTTL)
